@@ -53,6 +53,8 @@ pub enum FeR {
     /// PRODUCT sits just below 2^127 (which = 0) or 2^128 (which = 1): a_i = a | 2^63, a_j = (2^127 or 2^128 - 1 - d) / a_i.
     /// Doubled cross products and column sums of a schoolbook / Comba multiplication overflow exactly there.
     MontProductEdge { a: u64, i: u8, j: u8, which: u8, d: u8, rest: Vec<u64> },
+    /// the negative of the inner element (used for related components: (a, -a) in Fq2)
+    NegOf(Box<FeR>),
     /// p - 1 - k for k up to 255
     PMinusK(u8),
     /// a value below p that agrees with p in its leading `n` bits and is otherwise taken from the limbs
@@ -88,15 +90,24 @@ impl FeR {
             FeR::Small(k) => Z::from(*k as u32),
             FeR::Limbs(l) => crate::adapt::limbs_to_z(l),
             FeR::MontPattern(pat) => {
+                // limbs of the modulus (little endian)
+                let pl: Vec<u64> = crate::adapt::z_to_limbs(p, nlimbs);
                 let limbs: Vec<u64> = (0..nlimbs)
                     .map(|i| {
-                        let sel = pat.get(i).copied().unwrap_or(0) % 4;
-                        let sel = if i == nlimbs - 1 { sel % 2 } else { sel };
+                        let sel = pat.get(i).copied().unwrap_or(0) % 8;
+                        // the top limb stays below the modulus' top limb: 0, 1, or the modulus limb minus one
+                        let sel = if i == nlimbs - 1 { [0u8, 1, 0, 1, 6, 6, 6, 0][sel as usize] } else { sel };
                         match sel {
                             0 => 0,
                             1 => 1,
                             2 => 1u64 << 63,
-                            _ => u64::MAX,
+                            3 => u64::MAX,
+                            // 4..7: the modulus limb itself and its neighbours (borrow / carry chains of hand-written
+                            // subtractions from the modulus stop or ripple exactly there)
+                            4 => pl[i],
+                            5 => pl[i].wrapping_add(1),
+                            6 => pl[i].wrapping_sub(1),
+                            _ => !pl[i],
                         }
                     })
                     .collect();
@@ -124,6 +135,10 @@ impl FeR {
                 let r = (Z::one() << (64 * nlimbs)) % p;
                 let rinv = r.modpow(&(p - Z::from(2u32)), p);
                 (m * rinv) % p
+            }
+            FeR::NegOf(inner) => {
+                let v = inner.build(p, nlimbs);
+                if v.is_zero() { v } else { p - v }
             }
             FeR::PMinusK(k) => p - &one - Z::from(*k as u32),
             FeR::SharesTopBits(n, l) => {
@@ -215,6 +230,7 @@ pub fn fe_strategy(nlimbs: usize) -> BoxedStrategy<FeR> {
         1 => Just(FeR::MontRM1),
         2 => any::<u16>().prop_map(FeR::Small),
         4 => proptest::collection::vec(0u8..4, nlimbs).prop_map(FeR::MontPattern),
+        4 => proptest::collection::vec(prop_oneof![1 => 0u8..4, 2 => 4u8..8], nlimbs).prop_map(FeR::MontPattern),
         3 => limb_combo_strategy(nlimbs),
         3 => (any::<u64>(), any::<u8>(), any::<u8>(), 0u8..2, 0u8..4, proptest::collection::vec(any::<u64>(), nlimbs)).prop_map(|(a, i, j, which, d, rest)| FeR::MontProductEdge { a, i, j, which, d, rest }),
         14 => proptest::collection::vec(any::<u64>(), nlimbs).prop_map(FeR::Limbs),
@@ -253,6 +269,8 @@ pub fn fq2_strategy() -> BoxedStrategy<Fq2R> {
         8 => (fq_uniformish(), fq_uniformish()).prop_map(|(a, b)| Fq2R(a, b)),
         2 => fq_strategy().prop_map(|a| Fq2R(a, FeR::Zero)),
         2 => fq_strategy().prop_map(|b| Fq2R(FeR::Zero, b)),
+        1 => fq_strategy().prop_map(|a| Fq2R(a.clone(), a)),
+        1 => fq_strategy().prop_map(|a| Fq2R(a.clone(), FeR::NegOf(Box::new(a)))),
         1 => (limb_combo_strategy(6), fq_strategy()).prop_map(|(a, b)| Fq2R(a, b)),
         1 => (fq_strategy(), limb_combo_strategy(6)).prop_map(|(a, b)| Fq2R(a, b)),
     ]
